@@ -14,6 +14,36 @@ NA = {
 
 # id -> (level, text, note, technique, design_ref, built)
 CHECKS = {
+ "C03": ("exploration",
+         "Seeded search + a small complete enumeration: reference encodings of generated values hit by 1..3 storage faults (bit flip, byte set, truncate, extend, duplicate, splice; 70% aimed at tags, counts, compacts, UTF-8 bodies, variant indices, nanos, non-zero fields, bit lengths, padding via the reference encoder's annotation map), valid(+suffix) and random strings, delivered through a drawn benign source stack; the real decoder's accept/reject, value and consumed length are compared with an independent reference SCALE decoder; overflow checks and debug assertions on; process survival (abort, stack overflow, allocation cap, hang) observed by the supervising driver; every byte string of length <= 2 (3 for small-alphabet subjects in thorough) for every subject is enumerated completely. Sampling beyond that.",
+         "Trusted: the reference model (model.rs) as the statement of the SCALE language, incl. its documented laxities (padding bits ignored, duplicate map keys last-wins); recursive types decoded on a 1 GiB stack with inputs <= 64 KiB (unlimited-depth stack exhaustion is C11's subject). Collections of zero-sized-encoding elements with hostile counts are a KNOWN-FINDING family (memory exhaustion), executed in supervised child processes.",
+         "deterministic simulation: storage-fault injection on the wire (seeded, annotation-aimed) + differential oracle against a reference decoder + supervised workers for crash/abort/hang detection; complete enumeration of short strings",
+         "DESIGN.md section 4 C03", True),
+ "C07": ("exploration",
+         "Seeded search: every generated value is encoded through all sinks (encode, encode_to Vec with existing content, custom Output with/without push_byte, &mut dyn Output, io::Write with short writes and EINTR under three schedules, Cursor, small BufWriter, using_encoded) and encoded_size; all must agree byte for byte. Bulk subjects (12 primitive element types x Vec/VecDeque/array) are compared with element-wise twin types for encoding and for decoding of the full and a truncated encoding through the same benign source (values, consumed bytes, Ok/Err).",
+         "Trusted: SimWrite never returns Ok(0) or a hard error (the library documents sinks as infallible). Twin types are derived newtypes (TYPE_INFO = Unknown).",
+         "deterministic simulation: simulated sinks with short-write/EINTR injection, relational oracle across sinks and bulk-vs-elementwise twins",
+         "DESIGN.md section 4 C07", True),
+ "C08": ("exploration",
+         "Seeded search: one byte string (valid, damaged, truncated, random) per case decoded through the plain slice and 8..50 other source stacks (IoReader<Cursor>, IoReader over a short-read/EINTR reader under several schedules incl. 1 byte per call, custom Input with known/unknown length and own/defaulted read_byte, decode_from_bytes incl. the zero-copy path, all 39 non-trivial orders of CountedInput / depth-limit(max) / mem-limit(max) up to depth 3); same Ok/Err everywhere, same value and same consumed bytes on Ok; wrapper observables coherent (count == consumed, used_mem equal across stacks).",
+         "Trusted: the erasing DynInput adapter forwards all seven Input methods (incl. the hidden bytes hook).",
+         "deterministic simulation: simulated Input/Read endpoints with benign I/O nondeterminism, run-time composed real wrapper stacks, relational oracle against the slice baseline",
+         "DESIGN.md section 4 C08", True),
+ "C14": ("fault_enumeration",
+         "EOF is injected at EVERY strict cut point of every generated encoding up to 512 bytes (annotation-boundary +-16 and spread cuts for longer ones, incl. around multiples of 16 KiB), each delivered by slice, by a short-read reader and by an unknown-length input: decoding must fail. Streams of 2..20 frames of mixed subjects are decoded value by value from one benign source, optionally cut: frames before the cut are recovered at the right offsets, the cut frame fails. On arbitrary byte strings decode_all / decode_all_with_depth_limit(L) are checked equivalent to decode / decode_with_depth_limit(L) + nothing left, L in {0..4, u32::MAX}.",
+         "Complete over cut points for encodings <= 512 bytes of the generated values; values and streams are sampled.",
+         "deterministic simulation: EOF fault enumeration over every cut point (torn write / closed connection) and stream framing over simulated sources",
+         "DESIGN.md section 4 C14", True),
+ "C18": ("exploration",
+         "Seeded search: T::skip and T::decode are run on twin copies of the same simulated source (same chunk/EINTR schedule, same wrapper stack) over valid, damaged, truncated and random byte strings for all subjects: same Ok/Err, same bytes taken on Ok. DecodeLength::len is compared with the honest value length and, on damaged blobs, with the validity of the Compact<u32> prefix under the reference model.",
+         "Trusted: reference compact decoder for the prefix validity.",
+         "deterministic simulation: twin-source differential run of skip vs decode under identical seam schedules",
+         "DESIGN.md section 4 C18", True),
+ "C19": ("fault_enumeration",
+         "CountedInput is placed at every position of drawn wrapper stacks over simulated bases with injected error faults (read error at call k with or without partial consumption, EOF at byte k, I/O error at call k); a recording tap directly above the base notes what was really delivered; after every decode, successful or failed, count() must equal the delivered bytes, and after a fault-free success the bytes taken from the base.",
+         "Fault positions are sampled (k drawn), not enumerated completely; saturation at 2^64 is unreachable by execution and left to the existing synthetic unit test (stated gap).",
+         "deterministic simulation: error-fault injection at the Input/Read seam with a recording tap as ground truth for delivered bytes",
+         "DESIGN.md section 4 C19", True),
  "C02": ("exploration",
          "Seeded search over wire simulations: streams of 1..6 encoded messages of ~190 concrete subject types (values biased to lengths around multiples of the 16 KiB decode window) + suffix, decoded in order from one simulated source stack (short reads, EINTR, unknown remaining length, defaulted read_byte, shared-buffer input, non-binding wrapper layers); oracle: decode Ok, value equals the model value, bytes taken from the base equal the bytes produced after every message, suffix untouched. Sampling, not proof.",
          "Trusted: the model<->type bridges (Modelled impls), SimRead/SimInput/SimWrite seam implementations, rustc. Type universe = fixed catalogue.",
